@@ -685,70 +685,695 @@ def _fsck(acc, site, path, replay, desc):
         acc.violation("%s:git-fsck:%s" % (site, word), "%s: git fsck --connectivity-only: %s" % (desc, " | ".join(err[:3])), replay)
 
 
+# --------------------------------------------------------------------------- protocol transfers
+
+TRANSPORTS = ("tcp", "http", "cgit-srv", "cgit-tcp", "cgit-http")
+_SRV = {}
+CASE_TIMEOUT = 60
+
+
+class _Timeout(Exception):
+    pass
+
+
+def _alarm(signum, frame):
+    raise _Timeout()
+
+
+def server(kind):
+    from engines import xfer
+
+    s = _SRV.get(kind)
+    if s is None:
+        s = _SRV[kind] = xfer.TcpServer() if kind == "tcp" else xfer.HttpServer()
+    return s
+
+
+def close_servers(abandon=False):
+    for k in list(_SRV):
+        s = _SRV.pop(k)
+        if abandon:  # a handler thread may be wedged: do not join it
+            try:
+                s.srv.socket.close()
+            except Exception:
+                pass
+            continue
+        s.close()
+
+
+def _git_process_env():
+    """C git started by dulwich's SubprocessGitClient inherits os.environ: make it the clean one."""
+    from engines.common import git_env
+
+    for k in list(os.environ):
+        if k.startswith("GIT_"):
+            del os.environ[k]
+    os.environ.update(git_env())
+
+
+def _client(transport, o, url_or_none):
+    from dulwich import client as dc
+    from dulwich.protocol import (
+        CAPABILITY_MULTI_ACK,
+        CAPABILITY_MULTI_ACK_DETAILED,
+        CAPABILITY_NO_DONE,
+        CAPABILITY_OFS_DELTA,
+        CAPABILITY_SIDE_BAND_64K,
+    )
+
+    kw = dict(thin_packs=bool(o.get("thin", 1)), include_tags=bool(o.get("itag", 0)))
+    if transport == "tcp":
+        c = dc.TCPGitClient("127.0.0.1", port=url_or_none, **kw)
+    elif transport == "http":
+        c = dc.Urllib3HttpGitClient(url_or_none, **kw)
+    elif transport == "cgit-srv":
+        c = dc.SubprocessGitClient(**kw)
+    else:
+        raise HarnessError("no dulwich client for " + transport)
+    ack = o.get("ack", "detailed")
+    if ack in ("single", "multi"):
+        c._fetch_capabilities.discard(CAPABILITY_MULTI_ACK_DETAILED)
+    if ack == "single":
+        c._fetch_capabilities.discard(CAPABILITY_MULTI_ACK)
+    if o.get("nodone"):
+        c._fetch_capabilities.add(CAPABILITY_NO_DONE)
+    if not o.get("ofs", 1):
+        c._fetch_capabilities.discard(CAPABILITY_OFS_DELTA)
+        c._send_capabilities.discard(CAPABILITY_OFS_DELTA)
+    if not o.get("sb", 1):
+        c._fetch_capabilities.discard(CAPABILITY_SIDE_BAND_64K)
+        c._send_capabilities.discard(CAPABILITY_SIDE_BAND_64K)
+    return c
+
+
+def _server_drop(o):
+    """Capabilities the dulwich server must not advertise (narrowing for C git clients)."""
+    drop = []
+    ack = o.get("ack", "detailed")
+    if ack in ("single", "multi"):
+        drop.append(b"multi_ack_detailed")
+    if ack == "single":
+        drop.append(b"multi_ack")
+    if not o.get("nodone", 1):
+        drop.append(b"no-done")
+    if not o.get("srv_itag", 1):
+        drop.append(b"include-tag")
+    return drop
+
+
+def _tee_fetch_pack(client, sink):
+    orig = client.fetch_pack
+
+    def fetch_pack(path, determine_wants, graph_walker, pack_data, *a, **kw):
+        def tee(data):
+            sink.append(bytes(data))
+            return pack_data(data)
+
+        return orig(path, determine_wants, graph_walker, tee, *a, **kw)
+
+    client.fetch_pack = fetch_pack
+
+
+def _tee_connect(client, sink):
+    """Record what a TraditionalGitClient writes to its peer."""
+    orig = client._connect
+
+    def _connect(*a, **kw):
+        proto, can_read, stderr = orig(*a, **kw)
+        w = proto.write
+
+        def write(data):
+            sink.append(bytes(data))
+            return w(data)
+
+        proto.write = write
+        return proto, can_read, stderr
+
+    client._connect = _connect
+
+
+def _index(acc, site, h, pack, replay, desc, label):
+    """ids of a captured pack via the independent parser; None when nothing was captured."""
+    from engines import xfer
+    from engines.refmodels.packfile import FormatError
+
+    if not pack:
+        return set()
+    try:
+        ids, thin, ndelta = xfer.pack_ids(pack, h.raw)
+    except FormatError as e:
+        acc.violation("%s:wire-pack:%s:%s" % (site, label, e.code), "%s: pack on the wire does not parse: %s" % (desc, e), replay)
+        return None
+    if thin:
+        acc.count("thin_packs_on_wire")
+    if ndelta:
+        acc.count("delta_packs_on_wire")
+    return ids
+
+
+def case_proto(acc: Acc, dag, trees, deco, D, fam, rtag, wants, transport, direction, opts=()):
+    """One transfer over a real transport.  opts: tuple of (key, value) among
+    depth, storage, ack, nodone, itag, thin, ofs, sb, pv, tags(0 = --no-tags), hostile, fsck."""
+    import signal
+
+    o = dict(opts)
+    h = history(dag, trees, deco)
+    wants = tuple(wants)
+    D = tuple(D)
+    site = "%s:%s" % (transport, direction)
+    desc = _desc(h, D, fam, rtag, wants, site, opts)
+    replay = rp(case_proto, dag, trees, deco, D, fam, rtag, wants, transport, direction, tuple(opts))
+    acc.count("proto_cases")
+    acc.count("proto_cases[%s]" % site)
+    old = signal.signal(signal.SIGALRM, _alarm)
+    signal.alarm(CASE_TIMEOUT)
+    try:
+        _case_proto(acc, h, D, fam, rtag, wants, transport, direction, o, site, desc, replay)
+    except _Timeout:
+        acc.outcome("%s:error:timeout" % site)
+        acc.sample("TIMEOUT %s" % desc)
+        close_servers(abandon=True)
+    finally:
+        signal.alarm(0)
+        signal.signal(signal.SIGALRM, old)
+
+
+def _case_proto(acc, h, D, fam, rtag, wants, transport, direction, o, site, desc, replay):
+    from dulwich.repo import Repo
+
+    depth = o.get("depth")
+    storage = o.get("storage", "packed")
+    cgit_client = transport in ("cgit-tcp", "cgit-http")
+    srv = None
+    if transport != "cgit-srv":
+        srv = server("tcp" if transport in ("tcp", "cgit-tcp") else "http")
+    rids, rrefs = receiver_plan(h, D, fam, rtag)
+    before = set(rids)
+    if o.get("hostile"):
+        want_ids = [h.orphans[o["hostile"]]]
+    else:
+        want_ids = [h.refs[w] for w in wants]
+    include_tag = bool(o.get("itag")) or (cgit_client and direction != "push" and o.get("tags", 1))
+    tmp = []
+    opened = []
+    client_pack = []
+    client_tx = []
+    repo = None
+    failed = None
+    env_pv = None
+    try:
+        sdir = sender_dir(h, storage)
+        if direction == "clone":
+            top = fresh_dir("c")
+            tmp.append(top)
+            rdir = os.path.join(top, "clone")
+            before = set()
+        else:
+            rdir = _disk_repo(h, rids, rrefs, packed=bool(o.get("rpacked", 1)))
+            tmp.append(rdir)
+        # ---- server side
+        if srv is not None:
+            served = Repo(sdir if direction != "push" else rdir)
+            opened.append(served)
+            srv.serve(served, drop_upload=_server_drop(o) if cgit_client else (), drop_receive=())
+        if transport == "cgit-srv":
+            _git_process_env()
+            if o.get("pv") == 2:
+                os.environ["GIT_PROTOCOL"] = "version=2"
+                env_pv = True
+        # ---- the transfer
+        try:
+            if not cgit_client:
+                where = srv.port if transport == "tcp" else srv.url() if transport == "http" else None
+                c = _client(transport, o, where)
+                path = "/" if srv is not None else (sdir if direction != "push" else rdir)
+                if direction == "fetch":
+                    target = Repo(rdir)
+                    opened.append(target)
+                    _tee_fetch_pack(c, client_pack)
+                    c.fetch(path, target, determine_wants=lambda refs, depth=None: list(want_ids), depth=depth,
+                            protocol_version=o.get("pv"))
+                    if not o.get("hostile"):
+                        for w in wants:
+                            target.refs[_xfer_name(w)] = h.refs[w]
+                    xfer = [] if o.get("hostile") else want_ids
+                elif direction == "clone":
+                    _tee_fetch_pack(c, client_pack)
+                    r = c.clone(path, rdir, mkdir=True, bare=True, depth=depth, protocol_version=o.get("pv"))
+                    r.close()
+                    xfer = None
+                else:
+                    src = Repo(sdir)
+                    opened.append(src)
+                    if transport != "http":
+                        _tee_connect(c, client_tx)
+
+                    def update(oldrefs):
+                        new = dict(oldrefs)
+                        for w in wants:
+                            new[w] = h.refs[w]
+                        return new
+
+                    res = c.send_pack(path, update, src.generate_pack_data)
+                    bad = {k: v for k, v in (res.ref_status or {}).items() if v}
+                    if bad:
+                        failed = "rejected:%s" % sorted(bad.values())[0][:40]
+                    xfer = want_ids
+            else:
+                url = srv.url()
+                cfg = ["-c", "protocol.version=%d" % o.get("pv", 0), "-c", "gc.auto=0", "-c", "maintenance.auto=0",
+                       "-c", "fetch.writeCommitGraph=false", "-c", "transfer.unpackLimit=%d" % o.get("unpack", 100)]
+                if direction == "fetch":
+                    specs = [(w + b":" + _xfer_name(w)).decode() for w in wants]
+                    args = cfg + ["fetch", "-q"] + ([] if o.get("tags", 1) else ["--no-tags"]) + \
+                        (["--depth=%d" % depth] if depth else []) + [url] + specs
+                    p = git(args, cwd=rdir, check=False, timeout=CASE_TIMEOUT)
+                    xfer = want_ids
+                elif direction == "clone":
+                    args = cfg + ["clone", "-q", "--bare"] + ([] if o.get("tags", 1) else ["--no-tags"]) + \
+                        (["--depth=%d" % depth] if depth else []) + [url, rdir]
+                    p = git(args, check=False, timeout=CASE_TIMEOUT)
+                    xfer = None
+                else:
+                    specs = [(w + b":" + w).decode() for w in wants]
+                    args = cfg + ["push", "-q"] + ([] if o.get("thin", 1) else ["--no-thin"]) + [url] + specs
+                    p = git(args, cwd=sdir, check=False, timeout=CASE_TIMEOUT)
+                    xfer = want_ids
+                if p.returncode != 0:
+                    msg = p.stderr.decode("utf-8", "replace").strip().splitlines()
+                    failed = "git-exit-%d:%s" % (p.returncode, (msg[-1] if msg else "")[:60])
+        except _Timeout:
+            raise
+        except Exception as e:
+            failed = "%s" % type(e).__name__
+            acc.sample("ERROR %s: %r" % (desc, e))
+        finally:
+            if env_pv:
+                del os.environ["GIT_PROTOCOL"]
+        if srv is not None:
+            srv.wait_idle()
+        for r in opened:
+            r.close()
+        del opened[:]
+        server_errors = list(srv.errors) if srv is not None else []
+        # ---- what went over the wire
+        sent = None
+        packs = []
+        if srv is not None:
+            from engines import xfer as X
+
+            for conn in list(srv.wire.conns):
+                if conn["service"] == "upload-pack":
+                    pack, _rest, fatal = X.sideband_pack(conn["tx"])
+                    if pack:
+                        packs.append(("server-tx", pack))
+                else:
+                    pack, _cmds = X.push_pack(conn["rx"])
+                    if pack:
+                        packs.append(("server-rx", pack))
+        if client_pack:
+            packs.append(("client-rx", b"".join(client_pack)))
+        if client_tx:
+            from engines import xfer as X
+
+            pack, _cmds = X.push_pack(_skip_tcp_request(b"".join(client_tx)))
+            if pack:
+                packs.append(("client-tx", pack))
+        if failed is None or packs:
+            sent = set()
+            for label, pack in packs:
+                ids = _index(acc, site, h, pack, replay, desc, label)
+                if ids is None:
+                    sent = None
+                    break
+                sent |= ids
+            srvp = [p_ for l_, p_ in packs if l_.startswith("server")]
+            clip = [p_ for l_, p_ in packs if l_.startswith("client")]
+            if len(srvp) == 1 and len(clip) == 1 and srvp[0] != clip[0]:
+                acc.violation("%s:wire:client-and-server-see-different-pack" % site, desc, replay)
+        if os.path.isdir(rdir):
+            repo = Repo(rdir)
+        if failed is not None:
+            # not a successful transfer: the statement demands nothing of the receiver, but the
+            # sender must still not have leaked anything (containment on what was captured)
+            acc.outcome("%s:failed:%s" % (site, failed.split(":")[0]))
+            if len(acc.samples) < 6:
+                acc.sample("FAILED %s: %s %s" % (desc, failed, server_errors[-1].strip().splitlines()[-1] if server_errors else ""))
+            if sent and repo is not None:
+                _containment_only(acc, site, h, sent, want_ids, include_tag, replay, desc)
+            return
+        if repo is None:
+            acc.violation("%s:clone:no-repository-created" % site, desc, replay)
+            return
+        if o.get("hostile"):
+            _containment_only(acc, site, h, sent or set(), [], False, replay, desc)
+            acc.outcome("%s:hostile-want-served:%d-objects" % (site, len(sent or ())))
+            return
+        got = repo.get_refs()
+        if xfer is None:  # clone: everything the clone recorded
+            xfer = sorted(set(got.values()))
+            want_ids = sorted(set(h.refs.values()) | set(xfer))
+            if not (o.get("tags", 1) or not cgit_client) :
+                want_ids = sorted(set(xfer))
+        elif cgit_client and direction == "fetch":
+            # refs C git created on its own (auto-followed tags) are transferred refs as well
+            extra = [v for k, v in got.items() if rrefs.get(k) != v and v in h.raw]
+            xfer = sorted(set(xfer) | set(extra))
+        if direction == "push":
+            notset = [w for w in wants if got.get(w) != h.refs[w]]
+            if notset:
+                acc.violation("%s:refs:reported-ok-but-not-set" % site, "%s: %r" % (desc, notset), replay)
+        cls = judge(acc, site, h, repo, before, xfer, want_ids, sent, include_tag, depth, replay, desc)
+        acc.outcome(cls + (":srv-error" if server_errors else ""))
+        if o.get("fsck"):
+            _fsck(acc, site, rdir, replay, desc)
+    finally:
+        for r in opened:
+            r.close()
+        if repo is not None:
+            repo.close()
+        for d in tmp:
+            rmtree(d)
+
+
+def _skip_tcp_request(stream):
+    """A git:// client stream starts with one pkt-line 'git-receive-pack /\0host=..\0' — drop it
+    (a pipe to `git receive-pack` has no such line: commands start with 40 hex digits)."""
+    from engines import xfer as X
+
+    if len(stream) >= 8 and stream[4:8] == b"git-":
+        n = int(stream[:4], 16)
+        return stream[n:]
+    return stream
+
+
+def _containment_only(acc, site, h, sent, want_ids, include_tag, replay, desc):
+    advertised = ref.closure(h.edges, h.refs.values())
+    known = [o for o in sent if o in h.raw]
+    unadv = sorted(o for o in known if o not in advertised)
+    if unadv:
+        acc.violation("%s:containment:wire-unreachable-from-advertised-refs:%s"
+                      % (site, "+".join(sorted({TYPE[h.raw[o][0]] for o in unadv}))),
+                      "%s: transmitted %d object(s) no advertised ref reaches, e.g. %s" % (desc, len(unadv), unadv[0].decode()), replay)
+
+
+# --------------------------------------------------------------------------- enumeration plan
+
+NAMED4 = {
+    "chain": ((), (0,), (1,), (2,)),
+    "criss-cross": ((), (), (0, 1), (0, 1)),
+    "two-chains": ((), (), (0,), (1,)),
+    "diamond": ((), (0,), (0,), (1, 2)),
+    "fork3": ((), (0,), (0,), (0,)),
+    "merge-of-roots+child": ((), (), (0, 1), (2,)),
+    "merge-with-foreign-root": ((), (0,), (), (1, 2)),
+    "four-roots": ((), (), (), ()),
+    "side-branch": ((), (0,), (1,), (1,)),
+    "merge+sibling": ((), (), (0, 1), (0,)),
+    "N": ((), (), (0,), (0, 1)),
+    "redundant-parent": ((), (0,), (0, 1), (1, 2)),
+}
+
+
+def O(**kw):
+    """opts tuple in a fixed key order (part of the replay descriptor)."""
+    return tuple(sorted(kw.items()))
+
+
+def B(kind, what, rows, fams=("h",), rtag=False, maxwants=3, special=None):
+    return dict(kind=kind, what=what, rows=tuple(rows), fams=tuple(fams), rtag=rtag, maxwants=maxwants, special=special)
+
+
+def block_cases(h, b):
+    """Every case of block ``b`` on history ``h`` as (fn, args) — the declared space, in order."""
+    out = []
+    base = (h.dag, h.trees, h.deco)
+    if b["kind"] == "inproc":
+        fn, head = "case_inproc", (b["what"],)
+    else:
+        fn, head = "case_proto", tuple(b["what"])
+    if b["special"] == "clone":
+        for row in b["rows"]:
+            out.append((fn, base + ((), "h", 0, tuple(sorted(h.refs))) + head + (row,)))
+        return out
+    if b["special"] == "hostile":
+        full = tuple(range(len(h.dag)))
+        for D in ((), full):
+            for row in b["rows"]:
+                out.append((fn, base + (D, "h", 0, ()) + head + (row,)))
+        return out
+    W = want_sets(h, b["maxwants"])
+    for D, fam, rtag in receiver_states(h, b["fams"], b["rtag"]):
+        for wants in W:
+            for row in b["rows"]:
+                out.append((fn, base + (D, fam, rtag, wants) + head + (row,)))
+    return out
+
+
+def run_cases(acc, cases):
+    g = globals()
+    for fn, args in cases:
+        g[fn](acc, *args)
+
+
+def histories(dags, rules, decos):
+    return [(tuple(d), tuple(r[:len(d)]), deco) for d in dags for r in rules for deco in decos]
+
+
+def small_dags(nmax):
+    return [d for n in range(1, nmax + 1) for d in E.dags(n, 2)]
+
+
+def families(quick):
+    """-> list of (label, histories, blocks).  Every (history, block) pair is evaluated completely."""
+    R0, R1, R2 = TREE_RULES
+    fsck = {} if quick else {"fsck": 1}
+    fams = []
+    P, L = O(storage="packed", **fsck), O(storage="loose", **fsck)
+
+    def Pd(d):
+        return O(storage="packed", depth=d, **fsck)
+
+    def mem(depths, with_r, maxwants):
+        return B("inproc", "mem-fetch", [O(depth=d) if d else () for d in depths], fams=("h", "r") if with_r else ("h",),
+                 maxwants=maxwants)
+
+    def clone(storages, depths):
+        return B("inproc", "local-clone", [O(storage=s, **({"depth": d} if d else {}), **fsck)
+                                           for s in storages for d in depths], special="clone")
+
+    small = small_dags(3)
+    n4 = list(E.dags(4, 2))
+    named = list(NAMED4.values())
+    if quick:
+        fams.append(("in-process A: n<=3 all DAGs x tree rule 0 x 6 decorations",
+                     histories(small, [R0], DECOS),
+                     [mem((None, 1, 2), True, 3),
+                      B("inproc", "local-fetch", [P, L, Pd(1), Pd(2)]),
+                      B("inproc", "local-fetch", [P], fams=("r",), maxwants=1),
+                      B("inproc", "local-push", [P, L], rtag=True),
+                      clone(("packed", "loose"), (None, 1, 2))]))
+        fams.append(("in-process B: n<=3 all DAGs x tree rules 1,2 x 6 decorations",
+                     histories(small, [R1, R2], DECOS),
+                     [mem((None,), True, 3),
+                      B("inproc", "local-fetch", [P], maxwants=2),
+                      B("inproc", "local-push", [P], rtag=True, maxwants=2),
+                      clone(("packed",), (None,))]))
+        fams.append(("in-process C: n=4 all 56 DAGs x tree rule 0 x {none,tc,t2}",
+                     histories(n4, [R0], ("none", "tc", "t2")),
+                     [mem((None, 2), False, 2)]))
+        fams.append(("in-process D: 12 named 4-commit shapes x tree rule 0 x {none,tc,t2}",
+                     histories(named, [R0], ("none", "tc", "t2")),
+                     [B("inproc", "local-fetch", [P], maxwants=2),
+                      B("inproc", "local-push", [P], rtag=True, maxwants=2),
+                      clone(("packed",), (None, 2))]))
+    else:
+        allsmall = [(tuple(d), t, deco) for d in small_dags(2) for t in itertools.product(range(5), repeat=len(d)) for deco in DECOS]
+        full = [mem((None, 1, 2), True, 3),
+                B("inproc", "local-fetch", [P, L, Pd(1), Pd(2)]),
+                B("inproc", "local-fetch", [P], fams=("r",), maxwants=1),
+                B("inproc", "local-push", [P, L], rtag=True),
+                clone(("packed", "loose"), (None, 1, 2))]
+        fams.append(("in-process A: n<=2 all DAGs x ALL 5^n tree assignments x 6 decorations", allsmall, full))
+        fams.append(("in-process B: n=3 all DAGs x 3 tree rules x 6 decorations",
+                     histories(E.dags(3, 2), TREE_RULES, DECOS), full))
+        fams.append(("in-process C: n=4 all 56 DAGs x 3 tree rules x 6 decorations",
+                     histories(n4, TREE_RULES, DECOS), [mem((None, 1, 2), True, 3)]))
+        fams.append(("in-process D: n=4 all 56 DAGs x tree rule 0 x 6 decorations",
+                     histories(n4, [R0], DECOS),
+                     [B("inproc", "local-fetch", [P, Pd(1)], maxwants=2),
+                      B("inproc", "local-push", [P], rtag=True, maxwants=2),
+                      clone(("packed", "loose"), (None, 1, 2))]))
+        fams.append(("in-process E: n=5 all 616 DAGs x tree rule 0 x {none,tc}",
+                     histories(E.dags(5, 2), [R0], ("none", "tc")),
+                     [mem((None, 2), False, 2)]))
+    return fams
+
+
+def proto_families(quick):
+    """Protocol transports: each axis varies only where Appendix B of DESIGN.md says it can."""
+    R0, R1, R2 = TREE_RULES
+    fsck = {} if quick else {"fsck": 1}
+
+    def o(**kw):
+        kw.update(fsck)
+        return O(**kw)
+
+    def PB(transport, direction, rows, **kw):
+        return B("proto", (transport, direction), rows, **kw)
+
+    tagdecos = DECOS[1:]
+    PA = histories(small_dags(3), [R0], ("none",))
+    PT = histories(small_dags(2), [R0], tagdecos)
+    PC = histories(NAMED4.values(), [R0], ("none",))
+    w_small, w_named = (3, 1) if quick else (3, 3)
+    fams = []
+    hostile = [o(hostile=k) for k in ("commit", "tag", "tree", "blob")]
+    # ---- dulwich client <-> dulwich server (git:// and smart HTTP): ack mode, no-done, include-tag, depth
+    for tr in ("tcp", "http"):
+        full = tr == "tcp" or not quick
+        ack_rows = [o(ack="single"), o(ack="multi"), o(), o(nodone=1)] if full else [o(ack="single"), o(), o(nodone=1)]
+        depth_rows = [o(depth=1), o(depth=2), o(depth=1, ack="single"), o(depth=2, nodone=1)] if full else [o(depth=1)]
+        fams.append(("%s A: n<=3 all DAGs, no tags" % tr, PA, [
+            PB(tr, "fetch", ack_rows + depth_rows + ([o(storage="loose")] if full else []), maxwants=w_small),
+            PB(tr, "push", [o(), o(ofs=0), o(sb=0)] if full else [o()], maxwants=w_small),
+            PB(tr, "clone", [o(), o(depth=1), o(depth=2)], special="clone"),
+            PB(tr, "fetch", hostile, special="hostile"),
+        ]))
+        fams.append(("%s T: n<=2 all DAGs x 5 tag decorations" % tr, PT, [
+            PB(tr, "fetch", [o(), o(itag=1), o(itag=1, ack="single"), o(itag=1, nodone=1)] if full else [o(itag=1), o(itag=1, nodone=1)],
+               maxwants=w_small),
+            PB(tr, "fetch", [o(itag=1, depth=1)], maxwants=1),
+            PB(tr, "push", [o()], rtag=True, maxwants=w_small),
+            PB(tr, "clone", [o(), o(itag=1), o(itag=1, depth=1)], special="clone"),
+            PB(tr, "fetch", hostile[:2], special="hostile"),
+        ]))
+        fams.append(("%s N: 12 named 4-commit shapes, no tags" % tr, PC, [
+            PB(tr, "fetch", [o(ack="single"), o(), o(depth=2)] if full else [o()], maxwants=w_named),
+            PB(tr, "push", [o()], maxwants=w_named),
+            PB(tr, "clone", [o(), o(depth=2)], special="clone"),
+        ]))
+    # ---- dulwich client -> C git upload-pack / receive-pack: + thin-pack, ofs-delta, side-band-64k, v0/v2
+    tr = "cgit-srv"
+    fams.append(("cgit-srv A: n<=3 all DAGs, no tags", PA, [
+        PB(tr, "fetch", [o(pv=2), o(pv=0), o(pv=0, ack="single"), o(pv=0, ack="multi"),
+                         o(pv=0, ack="single", thin=0, ofs=0, sb=0), o(pv=2, depth=1), o(pv=0, depth=2)], maxwants=w_small),
+        PB(tr, "fetch", [o(pv=0, thin=0), o(pv=0, ofs=0), o(pv=0, sb=0), o(pv=2, thin=0)], maxwants=1 if quick else 3),
+        PB(tr, "push", [o(), o(ofs=0), o(sb=0)], maxwants=1 if quick else 3),
+        PB(tr, "clone", [o(pv=2), o(pv=0), o(pv=2, depth=1), o(pv=0, depth=2)], special="clone"),
+    ]))
+    fams.append(("cgit-srv T: n<=2 all DAGs x 5 tag decorations", PT, [
+        PB(tr, "fetch", [o(pv=0, itag=1), o(pv=2, itag=1)] + ([] if quick else [o(pv=0), o(pv=2), o(pv=0, itag=1, depth=1)]), maxwants=w_small),
+        PB(tr, "push", [o()], rtag=True, maxwants=1 if quick else 3),
+        PB(tr, "clone", [o(pv=2), o(pv=0, itag=1)], special="clone"),
+    ]))
+    fams.append(("cgit-srv N: 12 named 4-commit shapes, no tags", PC, [
+        PB(tr, "fetch", [o(pv=2), o(pv=0, ack="multi")] if not quick else [o(pv=2)], maxwants=w_named),
+        PB(tr, "push", [o()], maxwants=w_named),
+    ]))
+    # ---- C git client -> dulwich servers: server-side narrowing of multi_ack / no-done; --no-tags; depth
+    for tr in ("cgit-tcp", "cgit-http"):
+        tcp = tr == "cgit-tcp"
+        rows = [o(), o(ack="single"), o(ack="multi")] if (tcp or not quick) else [o(), o(nodone=0)]
+        if not tcp and not quick:
+            rows.append(o(nodone=0))
+        fams.append(("%s A: n<=3 all DAGs, no tags" % tr, PA, [
+            PB(tr, "fetch", rows[:1], fams=("h", "r") if not quick else ("h",), maxwants=2 if quick else 3),
+            PB(tr, "fetch", rows[1:] + [o(depth=1), o(depth=2)], maxwants=1 if quick else 3),
+            PB(tr, "push", [o(), o(thin=0)] if not quick else [o()], maxwants=1 if quick else 3),
+            PB(tr, "clone", [o(), o(depth=1)], special="clone"),
+        ]))
+        fams.append(("%s T: n<=2 all DAGs x 5 tag decorations" % tr, PT, [
+            PB(tr, "fetch", [o()], rtag=True, maxwants=1 if quick else 3),
+            PB(tr, "fetch", [o(tags=0)] + ([] if quick else [o(depth=1), o(ack="single")]), maxwants=1 if quick else 3),
+            PB(tr, "push", [o()], rtag=True, maxwants=1 if quick else 3),
+            PB(tr, "clone", [o(), o(tags=0)] + ([] if quick else [o(depth=1)]), special="clone"),
+        ]))
+        if not quick:
+            fams.append(("%s N: 12 named 4-commit shapes, no tags" % tr, PC, [
+                PB(tr, "fetch", [o()], maxwants=2),
+                PB(tr, "push", [o()], maxwants=2),
+            ]))
+    return fams
+
+
 # --------------------------------------------------------------------------- task plumbing
 
 
+CHUNK = 160  # cases per task
+
+
 def work(task):
-    kind, items, params = task
+    kind, spec, params = task
     acc = Acc()
-    if kind == "inproc":
-        for dag, trees, deco in items:
-            eval_history_inproc(acc, dag, trees, deco, params)
-    else:
-        raise AssertionError(kind)
-    if _HMEMO[1] is not None:
-        _drop(_HMEMO[1])
-        _HMEMO[0] = _HMEMO[1] = None
+    try:
+        if kind == "cases":
+            dag, trees, deco = spec
+            h = history(dag, trees, deco)
+            for b, lo, hi in params:
+                run_cases(acc, block_cases(h, b)[lo:hi])
+        else:
+            raise AssertionError(kind)
+    finally:
+        close_servers()
+        if _HMEMO[1] is not None:
+            _drop(_HMEMO[1])
+            _HMEMO[0] = _HMEMO[1] = None
     return acc
 
 
-def eval_history_inproc(acc, dag, trees, deco, profile):
-    h = history(dag, trees, deco)
-    acc.count("histories")
-    p = PROFILES[profile]
-    fs = (("fsck", 1),) if p.get("fsck") else ()
-    W = want_sets(h)
-    for D, fam, rtag in receiver_states(h):
-        acc.count("receiver_states")
-        for wants in W:
-            for depth in p["mem_depths"]:
-                case_inproc(acc, dag, trees, deco, D, fam, rtag, wants, "mem-fetch", (("depth", depth),) if depth else ())
-            for storage in p["storages"]:
-                st = (("storage", storage),)
-                for depth in p["local_depths"]:
-                    case_inproc(acc, dag, trees, deco, D, fam, rtag, wants, "local-fetch",
-                                st + ((("depth", depth),) if depth else ()) + fs)
-                case_inproc(acc, dag, trees, deco, D, fam, rtag, wants, "local-push", st + fs)
-    for storage in p["storages"]:
-        for depth in p["clone_depths"]:
-            case_inproc(acc, dag, trees, deco, (), "h", 0, tuple(sorted(h.refs)), "local-clone",
-                        (("storage", storage),) + ((("depth", depth),) if depth else ()) + fs)
-
-
-PROFILES = {
-    "full": dict(mem_depths=(None, 1, 2), storages=("loose", "packed"), local_depths=(None, 1, 2), clone_depths=(None, 1, 2)),
-    "lite": dict(mem_depths=(None, 1, 2), storages=("packed",), local_depths=(None,), clone_depths=(None, 1)),
-}
+def _block_name(b):
+    return b["what"] if isinstance(b["what"], str) else ":".join(b["what"])
 
 
 def run(ctx):
     q = ctx.quick
-    J = ctx.jobs
-    hist = []
-    for n in (1, 2, 3):
-        for dag in E.dags(n, 2):
-            for rule in TREE_RULES:
-                for deco in DECOS:
-                    hist.append((dag, rule[:n], deco))
-    tasks = [("inproc", part, "full") for part in split(ctx.order(hist), J * 4)]
+    bounds = {}
+    tasks = []
+    declared = {}
+    for label, hist, blocks in families(q) + proto_families(q):
+        per = {}
+        for spec in hist:
+            h = history(*spec)
+            cur, size = [], 0
+            for b in blocks:
+                n = len(block_cases(h, b))
+                per[_block_name(b)] = per.get(_block_name(b), 0) + n
+                lo = 0
+                while lo < n:
+                    take = min(n - lo, CHUNK - size)
+                    cur.append((b, lo, lo + take))
+                    size += take
+                    lo += take
+                    if size >= CHUNK:
+                        tasks.append(("cases", spec, cur))
+                        cur, size = [], 0
+            if cur:
+                tasks.append(("cases", spec, cur))
+        bounds[label] = {"histories": len(hist), "cases": per,
+                         "blocks": ["%s fams=%s rtag=%s wants<=%d%s rows=%s" % (
+                             _block_name(b), "".join(b["fams"]), int(b["rtag"]), b["maxwants"],
+                             " [%s]" % b["special"] if b["special"] else "", [dict(r) for r in b["rows"]]) for b in blocks]}
+        for k, v in per.items():
+            declared[k] = declared.get(k, 0) + v
+    _drop(_HMEMO[1]) if _HMEMO[1] is not None else None
+    _HMEMO[0] = _HMEMO[1] = None
+    if os.environ.get("C05_COUNT"):
+        for k, v in bounds.items():
+            print(k, v["histories"], v["cases"])
+        print("tasks", len(tasks), "declared", declared, sum(declared.values()))
+        return
     pmap_acc(work, ctx.order(tasks), ctx.acc, jobs=ctx.jobs)
     n = ctx.acc.n
+    total = n.get("inproc_cases", 0) + n.get("proto_cases", 0)
+    if total != sum(declared.values()):
+        raise HarnessError("evaluated %d cases, declared %d" % (total, sum(declared.values())))
     ctx.coverage.update(
-        evaluations=n.get("inproc_cases", 0),
+        evaluations=total,
         distinct_nontrivial=len(ctx.acc.classes),
         rule="wip",
         exhaustive=True,
-        bounds={},
+        bounds=bounds,
     )
 
 
